@@ -107,6 +107,9 @@ func histAlphabet() []Config {
 		K8u,
 		K0.with("K0+tagsA", nil, nil, tagsA),
 		K0.with("K0+tagsB", nil, nil, tagsB),
+		// a build tag that selects other files of package runtime (time_fake.go) and of nothing else:
+		// the runtime's action ID changes while its dependencies (internal/abi, ...) stay cached
+		K0.with("K0+tagsRT", nil, nil, []string{"-tags=faketime"}),
 		K0.with("K0+X1", nil, nil, x1),
 		K0.with("K0+X2", nil, nil, x2),
 		K2.with("K2+X1", nil, nil, x1),
@@ -136,7 +139,7 @@ func warmConfigs(alpha []Config) []Config {
 }
 
 func checkC06(c *Ctx) {
-	c.SetRule("histories of garble builds over one shared (GOCACHE, GARBLE_CACHE): each step picks a config from {default, -tiny, -literals, -seed=A, -seed=B, GOGARBLE=module, GOGARBLE=subtree, controlflow on, -tags a, -tags b, -ldflags=-X v1/v2 with and without -literals, -seed+-tags, GOGARBLE=module with -literals and -X none/v1/v2} " +
+	c.SetRule("histories of garble builds over one shared (GOCACHE, GARBLE_CACHE): each step picks a config from {default, -tiny, -literals, -seed=A, -seed=B, GOGARBLE=module, GOGARBLE=subtree, controlflow on, -tags a, -tags b, -tags=faketime (changes package runtime only), -ldflags=-X v1/v2 with and without -literals, -seed+-tags, GOGARBLE=module with -literals and -X none/v1/v2} " +
 		"and optionally an edit {none, comment, leaf package body, main body, add a file}; after every step the binary's sha256 and stdout are compared with a reference build of the same (config, source version) made in a fresh cache copy that has never seen the program; " +
 		"unchanged-rebuild probes repeat a step and require zero compile/asm actions (hook toolexec.begin events). Histories are PRNG-generated plus the ordered pairs that stress the acknowledged -literals/-ldflags=-X risk. " +
 		"distinct_nontrivial = distinct (previous config -> config, edit) steps that recompiled >=1 package, plus unchanged-rebuild probes.")
@@ -225,6 +228,9 @@ func checkC06(c *Ctx) {
 		[]step{{byName["K2+X1"], ""}, {byName["K0+X1"], ""}, {byName["K2+X2"], ""}, {byName["K0+X2"], ""}, {byName["K2"], "main"}},
 		// the same risk under a GOGARBLE scope that names the module instead of "*"
 		[]step{{byName["K26"], ""}, {byName["K26+X1"], ""}, {byName["K26+X2"], ""}, {byName["K26"], ""}, {byName["K6"], ""}, {byName["K26+X1"], ""}},
+		// only the runtime's inputs change: values garble patches into the runtime's dependencies must not
+		// be derived from the runtime's action ID (defect #28: the binary died at start-up)
+		[]step{{byName["K0+tagsRT"], ""}, {byName["K0"], ""}, {byName["K0+tagsRT"], "main"}},
 		// edits in a reflecting dependency: the dependants' cached reflection facts must not go stale
 		[]step{{byName["K0"], ""}, {byName["K0"], "leaf"}, {byName["K0"], "deep"}, {byName["K0"], "deepcomment"}, {byName["K0"], "comment"}, {byName["K0"], "main"}, {byName["K0"], "deep"}, {byName["K0"], "file"}},
 	)
